@@ -263,6 +263,28 @@ def run(ctx, report):
                      'operand kinds): a branch with a 2e/3e hint prefix keeps an immediate operand that is_imm still recognises, so its destination is still reported', floor=3)
     segm_guard_rule(ctx, R7, M)
 
+    # ---------------------------------------------------------------- D9 flow attributes reach every cell of their row
+    R9 = report.rule('C17.D9', 'x86allmncs.addop interpreted on every row that declares a control-flow attribute: each decode cell the row expands to (the variants with an opcode bit toggled - '
+                     'EB beside E9 - included) carries the attributes of the row', floor=20)
+    n9 = 0
+    for row in M.rows:
+        want9 = dict((k_, row.sem.get(k_, row.prop.get(k_))) for k_ in (bkf, spf, dtf) if row.sem.get(k_, row.prop.get(k_)))
+        if not want9:
+            continue
+        n9 += 1
+        cells9 = M.addop_cells(row)
+        badc = [(p_, c_) for p_, c_ in sorted(cells9.items()) if any(not c_[1].get(k_) for k_ in want9)]
+        inst9 = 'flow-reach:%s' % row.key()
+        if not cells9:
+            R9.violation(inst9, 'flow-reach:%s:no-cell' % row.name, 'addop fills no decode cell for the row %s' % row.key(), where(arch, row.node))
+        elif badc:
+            p_, c_ = badc[0]
+            R9.violation(inst9, 'flow-reach:%s' % row.name, 'the row %s declares %s, but the cell %s (%s) that addop builds for it carries %s: the instruction is decoded without its control-flow '
+                         'attributes' % (row.key(), sorted(str(k_) for k_ in want9), ' '.join('%02X' % b for b in p_), c_[0], dict((str(k_), c_[1].get(k_)) for k_ in want9)),
+                         where(arch, row.node), witness='eb fe (jmp rel8) reported as not ending its block')
+        else:
+            R9.ok(inst9, sample='%s: %d cells carry %s' % (row.key(), len(cells9), sorted(str(k_) for k_ in want9)), nontrivial=(len(cells9) > 1))
+
     # ---------------------------------------------------------------- D8 the displacement as the decoder reads it
     R8 = report.rule('C17.D8', 'the operand loop of _dis evaluated on every immediate kind x (w8, se) of the live cells x operand size x boundary byte patterns: bytes consumed, width and '
                      'value (sign- or zero-extended) of the immediate are the architectural ones, so a relative displacement reaches getdstflow with its sign (shared with C01.D14)', floor=18)
